@@ -497,6 +497,10 @@ func (e *Env) call(x *ast.CallExpr) Val {
 		}
 		eng.regMap(mt)
 		return Val{T: sel(eng.heapGet(e.cur, mapDom(mt)), m.T), S: "(Array " + eng.sorts.sortOf(mt.Key()) + " Bool)"}
+	case "bigval":
+		s := e.tr(x.Args[0])
+		eng.regBig()
+		return Val{T: sel(eng.heapGet(e.cur, bigIHeap), s.T), S: SInt}
 	case "elems":
 		s := e.tr(x.Args[0])
 		eng.regSet()
